@@ -166,7 +166,9 @@ def main(argv=None):
         import subprocess
 
         os.makedirs(os.path.join(VERIF, "replays", pid), exist_ok=True)
-        new.sort(key=lambda kv: (len(engine.canon(kv[1]["case"])), kv[0]))  # smallest first
+        # smallest first; self-contained sequences (cases that carry their own history) before them, because a violation caused by
+        # state left behind by an EARLIER case of the same worker does not reproduce from a fresh interpreter
+        new.sort(key=lambda kv: (0 if "seq" in kv[1]["case"] else 1, len(engine.canon(kv[1]["case"])), kv[0]))
         seen_keys = set()
         tried = confirmed = 0
         for k, v in new[:40]:
@@ -179,17 +181,23 @@ def main(argv=None):
             replay_paths.append(path)
             # every reported violation is first replayed in a FRESH interpreter (twice, inside pv.replay); a violation
             # that depends on what this process happened to run before is not trusted
-            if not getattr(mod, "NO_REPRODUCE", False) and confirmed < 2 and tried < 6:
+            if not getattr(mod, "NO_REPRODUCE", False) and confirmed < 2 and tried < 30:
                 tried += 1
                 r = subprocess.run([sys.executable, "-m", "pv.replay", path], cwd=VERIF, capture_output=True, text=True)
                 if r.returncode == 1:
                     confirmed += 1
+                elif r.returncode == 0:
+                    replay_paths.remove(path)  # listed only if it replays from a fresh interpreter
+                    os.remove(path)
                 elif r.returncode == 2:
                     sys.stderr.write("BROKEN: replay of %s is not deterministic\n%s\n" % (path, r.stdout[-300:]))
                     return 2
         if tried and not confirmed:
             sys.stderr.write("BROKEN: none of the first %d violations reproduces in a fresh interpreter\n" % tried)
             return 2
+        if tried > confirmed:
+            print("NOTE: %d reported violation(s) did not reproduce from a fresh interpreter (they depend on earlier calls in the same "
+                  "process); %d did" % (tried - confirmed, confirmed))
 
     nviol_new = len(new) + max(0, unlisted_uncounted)
     cov = {
